@@ -170,8 +170,16 @@ def h_write(ctx, vi, kind, fault_name, nbytes, force_unlock, ignore_feedback):
     addr = A.GearShort(sa) if kind == "gear" else A.DeviceShort(sa)
     if kind == "gear" and vi % 2:
         addr = sa
+    # further on/off switches of the write (none at the pinned commit): whatever else they do, the guarantees
+    # checked below hold with them on as well as off
+    import inspect
+    extra = {}
+    for pname, prm in inspect.signature(cls.write_raw).parameters.items():
+        if pname not in ("addr", "value", "allow_short_write", "force_unlock", "ignore_feedback") \
+                and prm.default in (False, True) and prm.kind in (prm.KEYWORD_ONLY, prm.POSITIONAL_OR_KEYWORD):
+            extra[pname] = ctx.fresh_bool("switch_" + pname)
     st, r = bus.run(cls.write_raw(addr, mkbytes(data), allow_short_write=nbytes is not None,
-                                  force_unlock=force_unlock, ignore_feedback=ignore_feedback))
+                                  force_unlock=force_unlock, ignore_feedback=ignore_feedback, **extra))
     if not can:
         ctx.prove(st == "exc" and isinstance(r, MemoryValueNotWriteable),
                   "value with a read-only location not refused: %s %r" % (st, r), key=tag + "/readonly-accepted")
